@@ -1167,7 +1167,7 @@ func (fx *FuncCtx) restoreWhen(st, pre *State, cond string) {
 	keep := st.clone()
 	rest := pre.clone()
 	for c, t := range st.Heap {
-		if strings.HasPrefix(c, "G$rd_pos") || strings.HasPrefix(c, "G$it_") || strings.HasPrefix(c, "G$put_") || strings.HasPrefix(c, "G$part_") || strings.HasPrefix(c, "G$br_src") || strings.HasPrefix(c, "G$hdr_") {
+		if strings.HasPrefix(c, "G$rd_pos") || strings.HasPrefix(c, "G$it_") || strings.HasPrefix(c, "G$put_") || strings.HasPrefix(c, "G$part_") || strings.HasPrefix(c, "G$lp_") || strings.HasPrefix(c, "G$br_src") || strings.HasPrefix(c, "G$hdr_") {
 			rest.Heap[c] = t
 		}
 	}
